@@ -168,6 +168,20 @@ pub fn gen_sched(rng: &mut Rng, o: &SchedOpts) -> Value {
     } else {
         json!({"kind": "pct", "depth": 1 + rng.below(3), "est": o.est_choices})
     };
+    // A fifth of the runs deschedule threads at a per-run random subset of code sites instead
+    // (drawn from a generator of its own, keyed by the schedule seed, so that the plan's other
+    // draws stay what they were before this strategy existed).
+    let mut srng = Rng::new(detsim::rng::derive(seed, 7, 7));
+    let strategy = if srng.chance(0.2) {
+        let p = [0.02, 0.1, 0.3][srng.usize_below(3)];
+        let key = srng.next_u64() >> 1;
+        let density = [2u64, 4, 8, 16][srng.usize_below(4)];
+        let hold = [3u64, 10, 40, 200, 1000][srng.usize_below(5)];
+        let p_park = [0.2, 0.5, 1.0][srng.usize_below(3)];
+        json!({"kind": "sitepark", "p": p, "key": key, "density": density, "hold": hold, "p_park": p_park})
+    } else {
+        strategy
+    };
     let now_cost = [0u64, 100, 1_000, 20_000, 200_000][rng.usize_below(5)];
     let mut s = json!({
         "seed": seed,
@@ -198,6 +212,13 @@ pub fn sched_from_plan(plan: &Value) -> SchedConfig {
             p_switch: jf(&st, "p", 0.2),
             slow_tid: ju(&st, "slow", 0) as usize,
             factor: ju(&st, "factor", 10) as u32,
+        },
+        "sitepark" => Strategy::SitePark {
+            p_switch: jf(&st, "p", 0.1),
+            key: ju(&st, "key", 1),
+            density: ju(&st, "density", 4) as u32,
+            hold: ju(&st, "hold", 10),
+            p_park: jf(&st, "p_park", 0.5),
         },
         "pct" => Strategy::Pct { depth: ju(&st, "depth", 2) as u32, est_len: ju(&st, "est", 300) },
         _ => Strategy::Random { p_switch: jf(&st, "p", 0.2) },
@@ -253,6 +274,7 @@ pub fn absorb_outcome(r: &mut Report, out: Outcome) {
     if out.stall_steps > 0 {
         r.fault("stall_thread", 1);
     }
+    r.fault("site_park", out.site_parks);
     r.outcome = out;
 }
 
